@@ -28,7 +28,7 @@ import (
 	"verif/vk"
 )
 
-const c09Rule = "valid messages / streams / settings / dictionary XML mutated structure-aware (truncate at any byte, drop the CheckSum, empty a value, duplicate or swap fields, huge / negative / non-numeric BodyLength and XMLDataLen, group counts that lie, settings lines before any section, dangling and cyclic component references), plus arbitrary fragment soups; each target is run under recover with a read bound; non-trivial = input that gets past the first check of its target (parses / frames / reaches a section or element handler); distinct = distinct input bytes per target"
+const c09Rule = "valid messages / streams / settings / dictionary XML mutated structure-aware (truncate at any byte, drop the CheckSum, empty a value, duplicate or swap fields, huge / negative / non-numeric / boundary-adjacent BodyLength and XMLDataLen, timestamps of every precision lengthened, shortened or with a character replaced, group counts that lie, settings lines before any section, dangling and cyclic component references), plus arbitrary fragment soups; each target is run under recover with a read bound; non-trivial = input that gets past the first check of its target (parses / frames / reaches a section or element handler); distinct = distinct input bytes per target"
 
 func c09() *stats.Collector {
 	c := stats.Get("C09")
@@ -53,21 +53,7 @@ func clipBytes(b []byte) []byte {
 
 // panicClass turns a recovered value into a short, stable class (first line without addresses/numbers).
 func panicClass(p interface{}) string {
-	s := fmt.Sprint(p)
-	s = strings.Split(s, "\n")[0]
-	out := strings.Map(func(r rune) rune {
-		switch {
-		case r >= '0' && r <= '9':
-			return -1
-		case r == ' ' || r == ':' || r == '[' || r == ']':
-			return '-'
-		}
-		return r
-	}, s)
-	if len(out) > 60 {
-		out = out[:60]
-	}
-	return out
+	return vk.PanicClass(p)
 }
 
 // ---------------------------------------------------------------- message mutations
@@ -107,7 +93,7 @@ func mutateMessage(t *rapid.T, msg []byte) ([]byte, []string) {
 	var applied []string
 	n := rapid.IntRange(0, 3).Draw(t, "nmut")
 	for i := 0; i < n && len(msg) > 0; i++ {
-		kind := rapid.SampledFrom([]string{"truncate", "drop-checksum", "empty-value", "dup-field", "swap-fields", "bodylength", "xmllen", "count-lies", "drop-soh", "insert-bytes", "drop-field", "empty-tag", "only-head"}).Draw(t, "mutation")
+		kind := rapid.SampledFrom([]string{"truncate", "drop-checksum", "empty-value", "dup-field", "swap-fields", "bodylength", "xmllen", "count-lies", "drop-soh", "insert-bytes", "drop-field", "empty-tag", "only-head", "timestamp"}).Draw(t, "mutation")
 		fields := bytes.SplitAfter(msg, []byte{1})
 		if len(fields) > 0 && len(fields[len(fields)-1]) == 0 {
 			fields = fields[:len(fields)-1]
@@ -142,6 +128,18 @@ func mutateMessage(t *rapid.T, msg []byte) ([]byte, []string) {
 			}
 		case "empty-value":
 			setValue(pick("f"), "")
+		case "timestamp":
+			// a time-typed field when there is one (half of the time), otherwise any field
+			i := pick("f")
+			if rapid.Bool().Draw(t, "time-field") {
+				for k, f := range fields {
+					if bytes.HasPrefix(f, []byte("52=")) || bytes.HasPrefix(f, []byte("60=")) || bytes.HasPrefix(f, []byte("122=")) {
+						i = k
+						break
+					}
+				}
+			}
+			setValue(i, vk.HostileTimestamp(t, "ts"))
 		case "dup-field":
 			i := pick("f")
 			fields = append(fields[:i+1], append([][]byte{fields[i]}, fields[i+1:]...)...)
@@ -154,7 +152,7 @@ func mutateMessage(t *rapid.T, msg []byte) ([]byte, []string) {
 		case "bodylength":
 			for i, f := range fields {
 				if bytes.HasPrefix(f, []byte("9=")) {
-					setValue(i, rapid.SampledFrom(hostileNumbers).Draw(t, "len"))
+					setValue(i, vk.HostileNumber(t, "len", hostileNumbers))
 					break
 				}
 			}
@@ -162,18 +160,18 @@ func mutateMessage(t *rapid.T, msg []byte) ([]byte, []string) {
 			done := false
 			for i, f := range fields {
 				if bytes.HasPrefix(f, []byte("212=")) {
-					setValue(i, rapid.SampledFrom(hostileNumbers).Draw(t, "xlen"))
+					setValue(i, vk.HostileNumber(t, "xlen", hostileNumbers))
 					done = true
 					break
 				}
 			}
 			if !done {
 				i := pick("f")
-				fields = append(fields[:i], append([][]byte{[]byte("212=" + rapid.SampledFrom(hostileNumbers).Draw(t, "xlen") + "\x01")}, fields[i:]...)...)
+				fields = append(fields[:i], append([][]byte{[]byte("212=" + vk.HostileNumber(t, "xlen", hostileNumbers) + "\x01")}, fields[i:]...)...)
 			}
 		case "count-lies":
 			// any numeric field may be a group count under some dictionary: set it to a hostile number
-			setValue(pick("f"), rapid.SampledFrom(hostileNumbers).Draw(t, "count"))
+			setValue(pick("f"), vk.HostileNumber(t, "count", hostileNumbers))
 		case "drop-soh":
 			i := pick("f")
 			if len(fields[i]) > 0 {
@@ -315,6 +313,8 @@ func TestC09_Stream(t *testing.T) {
 			for i := 0; i < n; i++ {
 				if rapid.IntRange(0, 4).Draw(t, "valid") == 0 {
 					stream = append(stream, genStreamMessage(t)...)
+				} else if rapid.IntRange(0, 5).Draw(t, "hostile-length") == 0 {
+					stream = append(stream, []byte(rapid.SampledFrom([]string{"8=FIX.4.2\x019=", "9=", "8=FIXT.1.1\x019="}).Draw(t, "head")+vk.HostileNumber(t, "len", hostileNumbers)+"\x01")...)
 				} else {
 					stream = append(stream, rapid.SampledFrom(append(soupFragments, []byte("9=99999999999999999999\x01"), []byte("9=-5\x01"), []byte("8=FIX.4.2\x019=\x01"), []byte("8=FIX.4.2\x019=2147483647\x01"))).Draw(t, "frag")...)
 				}
@@ -561,16 +561,21 @@ func replayC09(t vk.TB, target string, raw []byte) {
 func TestReplay_C09_Fixed(t *testing.T) {
 	vk.Guard(func() {
 		for _, in := range []string{
-			"8=FIX.4.1\x019=41\x0135=0\x0149",                                           // truncated: no CheckSum
-			"8=FIX.4.2\x01",                                                             // only BeginString
-			"8=FIX.4.2\x019=5\x01",                                                      // ends after BodyLength
-			"8=FIX.4.2\x019=20\x0135=D\x01453=2\x01448=A\x01",                           // ends inside a group (with a dictionary)
-			"8=FIX.4.2\x019=10\x0135=n\x01212=99999\x01213=x\x0110=000\x01",             // XMLDataLen beyond the message
-			"8=FIX.4.2\x019=82\x0135=0\x0149=S\x0156=T\x0134=2\x01212=8\x01213=01\x01a", // XMLDataLen beyond, no checksum
-			"8=FIX.4.2\x019=5\x0135=0\x0134=\x0110=000\x01",                             // empty integer field
+			"8=FIX.4.1\x019=41\x0135=0\x0149",                                                // truncated: no CheckSum
+			"8=FIX.4.2\x01",                                                                  // only BeginString
+			"8=FIX.4.2\x019=5\x01",                                                           // ends after BodyLength
+			"8=FIX.4.2\x019=20\x0135=D\x01453=2\x01448=A\x01",                                // ends inside a group (with a dictionary)
+			"8=FIX.4.2\x019=10\x0135=n\x01212=99999\x01213=x\x0110=000\x01",                  // XMLDataLen beyond the message
+			"8=FIX.4.2\x019=82\x0135=0\x0149=S\x0156=T\x0134=2\x01212=8\x01213=01\x01a",      // XMLDataLen beyond, no checksum
+			"8=FIX.4.2\x019=5\x0135=0\x0134=\x0110=000\x01",                                  // empty integer field
+			"8=FIX.4.2\x019=40\x0135=n\x01212=9223372036854775807\x01213=<a/>\x0110=000\x01", // XMLDataLen wraps the end offset
+			"8=FIXT.1.1\x019=45\x0135=D\x01212=9223372036854775806\x0149=S\x0156=T\x0134=2\x01",
 		} {
 			replayC09(t, "parse", []byte(in))
 		}
+		// BodyLength wraps the frame offset
+		replayC09(t, "stream", []byte("8=FIX.4.2\x019=9223372036854775807\x0135=0\x0110=000\x01"))
+		replayC09(t, "stream", []byte("8=FIX.4.2\x019=9223372036854775795\x0135=0\x0110=000\x018=FIX.4.2\x019=5\x0135=0\x0110=161\x01"))
 		replayC09(t, "settings", []byte("SenderCompID=A\n[DEFAULT]\n"))
 		replayC09(t, "dictionary", []byte("<fix major='4' type='FIX' servicepack='0' minor='4'><header/><messages/><trailer/><components><component name='A'><component name='B' required='Y'/></component><component name='B'><component name='A' required='Y'/></component></components><fields/></fix>"))
 	})
